@@ -55,6 +55,30 @@ func (p *seekPatternReader) Read(b []byte) (int, error) {
 }
 func (p *seekPatternReader) Seek(off int64, whence int) (int64, error) { return p.rs.Seek(off, whence) }
 
+// lenPatternReader is an in-memory source of known remaining length (it has Len(), as bytes.Reader, bytes.Buffer and
+// strings.Reader have) that still delivers its bytes in fragments - a segmented buffer.
+type lenPatternReader struct {
+	b       []byte
+	pattern []int
+	i       int
+}
+
+func (p *lenPatternReader) Len() int    { return len(p.b) }
+func (p *lenPatternReader) Size() int64 { return int64(len(p.b)) }
+func (p *lenPatternReader) Read(b []byte) (int, error) {
+	if len(p.b) == 0 {
+		return 0, io.EOF
+	}
+	k := p.pattern[p.i%len(p.pattern)]
+	p.i++
+	if k < len(b) {
+		b = b[:k]
+	}
+	n := copy(b, p.b)
+	p.b = p.b[n:]
+	return n, nil
+}
+
 func blockSetKey(st *Store) string {
 	var ks []string
 	for c, b := range st.Blocks {
@@ -109,6 +133,9 @@ func TestC10_P_Deterministic(t *testing.T) {
 			run(fmt.Sprintf("fragments%v", pattern), func(st *Store) (cid.Cid, uint64, error) {
 				return buildFileR(st.LinkSystem(), &patternReader{r: bytes.NewReader(content), pattern: pattern}, ck.Name, w)
 			})
+			run(fmt.Sprintf("len-fragments%v", pattern), func(st *Store) (cid.Cid, uint64, error) {
+				return buildFileR(st.LinkSystem(), &lenPatternReader{b: append([]byte{}, content...), pattern: pattern}, ck.Name, w)
+			})
 			run(fmt.Sprintf("seekable-fragments%v", pattern), func(st *Store) (cid.Cid, uint64, error) {
 				return buildFileR(st.LinkSystem(), &seekPatternReader{rs: bytes.NewReader(content), pattern: pattern}, ck.Name, w)
 			})
@@ -123,6 +150,7 @@ func TestC10_P_Deterministic(t *testing.T) {
 					func() io.Reader { return &patternReader{r: bytes.NewReader(content), pattern: pattern} },
 					func() io.Reader { return &seekPatternReader{rs: bytes.NewReader(content), pattern: pattern} },
 					func() io.Reader { return iotest.OneByteReader(bytes.NewReader(content)) },
+					func() io.Reader { return &lenPatternReader{b: append([]byte{}, content...), pattern: pattern} },
 				} {
 					var c cid.Cid
 					var sz uint64
@@ -134,7 +162,7 @@ func TestC10_P_Deterministic(t *testing.T) {
 					if i == 0 {
 						first, firstSize = c, sz
 					} else if c != first || sz != firstSize {
-						t.Fatalf("C10 file: %d bytes with the default chunker (%q): source #%d (0 bytes.Reader, 1 fragmenting %v, 2 seekable + fragmenting, 3 one byte at a time) gave %s/%d, the plain reader %s/%d", len(content), dname, i, pattern, c, sz, first, firstSize)
+						t.Fatalf("C10 file: %d bytes with the default chunker (%q): source #%d (0 bytes.Reader, 1 fragmenting %v, 2 seekable + fragmenting, 3 one byte at a time, 4 fragmenting with Len()) gave %s/%d, the plain reader %s/%d", len(content), dname, i, pattern, c, sz, first, firstSize)
 					}
 				}
 			}
